@@ -150,6 +150,14 @@ def run_job(job):
             for b in range(256):
                 hx = ha + HEXB[b]
                 s2 = R.step(s1, b)
+                # a signed string is itself just a byte string: signing it again appends a second signature
+                once = hx + SIG[s2]
+                s6 = R.crc(bytes.fromhex(SIG[s2]), s2)
+                if sign(once) != once + SIG[s6]:
+                    _check_string(res, once, "signed-again")
+                else:
+                    res.evals += 1
+                    res.traces += 1
                 ok = sign(hx) == hx + SIG[s2]
                 hu = hx.upper()
                 ok2 = sign(hu) == hu + SIG[s2]
@@ -212,6 +220,9 @@ def run_job(job):
                     body[i] ^= 1 << bit
             _check_string(res, bytes(body).hex(), "frame")
             _check_string(res, bytes(body).hex().upper(), "frame-upper")
+            full = bytes(body) + R.signature(bytes(body))
+            _check_string(res, full.hex(), "signed-frame-again")
+            _check_string(res, (full + R.signature(full)).hex(), "signed-frame-twice")
         res.sample({"input": "single-bit flips of the 10 reference frames; 00^L, ff^L, ramp for L=3..300,1023..4096"})
     elif part == "reject":
         bad_chars = list("gGzZxX -+.:_/\\\n\t\x00שé") + ["0x"]
@@ -229,6 +240,9 @@ def run_job(job):
                 for h3 in hexc:
                     cands.add(h + h2 + h3)  # odd number of hex digits
         cands.update({"just a regular string", "fef0 3000", "0x1f", "fe f0", "fef0\n", " fef0", "fef", "f" * 101})
+        # whitespace / separators between or around whole byte pairs (lenient hex parsers accept these)
+        for sep in (" ", "  ", "\n", "\t", ":", "-", ","):
+            cands.update({"ab" + sep + "cd", sep + "abcd", "abcd" + sep, "ab" + sep + "cd" + sep + "ef", sep + "ab" + sep, "fef05200" + sep + "0232a100" + sep})
         for c in sorted(cands):
             valid = len(c) % 2 == 0 and all(ch in "0123456789abcdefABCDEF" for ch in c)
             if valid:
